@@ -6,6 +6,7 @@
 import Kvass.Pins.Coord
 import Kvass.Proofs.CoordKeep
 import Kvass.Proofs.CoordCrash
+import Kvass.Proofs.LoopFaulty
 
 namespace Kvass.Props.C01
 open Kvass Kvass.Coord Kvass.Spec
@@ -86,6 +87,18 @@ theorem C01_takenOnlyIf (swr : Swr) (sc : Sched) (inp : Input) :
         simp only [Bool.and_eq_true, bne_iff_ne, ne_eq]
         exact ⟨⟨hji, hinj⟩, hhas⟩
     · exact Or.inl (Or.inr (by simpa using ha))
+
+/-- **C01, sharpened**: in a cycle that gets as far as the placement stages, a discovered target
+    that a shard reports is, in the final plan, still held by a shard that itself *reported* it — the
+    reporter, or an in-sync shard.  (So the target stays scraped even if every update of the cycle
+    is lost: the closed-loop theorems `C06_step_keep_under_faults` and `C06_never_unscraped` rest
+    on this.) -/
+theorem C01_reporter_keeps (swr : Swr) (sc : Sched) (inp : Input) (hne : stopsEarly inp = false)
+    {i : Nat} {p : Probe} {h : Hash} (hp : inp.probes[i]? = some p)
+    (hr : (reported p).has h = true) (ha : h ∈ inp.active) :
+    ∃ (y : Nat) (q : Probe) (sy : SI), inp.probes[y]? = some q ∧ (inSync q = true ∨ y = i) ∧
+      (reported q).has h = true ∧ (cycle swr sc inp).final[y]? = some sy ∧ sy.scraping.has h = true :=
+  reporter_keeps swr sc inp hne hp hr ha
 
 /-- **C01 (c)**: the cycle completes without crashing for every report a sidecar can produce
     (no negative series) when `max-process-series ≠ 0` (which `cmd/kvass` enforces). -/
